@@ -1,6 +1,6 @@
 """C02 Compiling expressions and statements preserves what the script does (structural clauses)."""
 from common import Report
-from facts import hir_walk, op_local, op_place, place_local, place_proj
+from facts import MissingAnchor, hir_walk, op_local, op_place, place_local, place_proj
 from rules import arms, flow
 
 EXPLANATION = (
@@ -13,7 +13,14 @@ EXPLANATION = (
     "and compares AliasableIds of both sides.  R-TEMP-PAIR: in every function that calls define_temporary, every "
     "normal path from the definition to the return passes undefine_temporary (a temporary is always released), and "
     "the release is not followed by another use of the temporary's expression.  R-CMP-JMP: the two-part conditional "
-    "jump emits the comparison before the jump.  Decides these necessary conditions; semantic equivalence of the "
+    "jump emits the comparison before the jump.  R-NEGATE / R-DEMORGAN / R-COND-LOWER: the finite tables that carry the "
+    "meaning of conditions into jump instructions are compared with the logic they must implement (operator complement "
+    "table, if/unless swap, De Morgan split of && and ||, `!x` by keyword negation, bare `e` as `e != 0`, `unless (a op b)` "
+    "by the complemented operator, `unless (--x)` by jumping over an unconditional jump); the argument of each emitted "
+    "jump is traced through let-bindings to the parameter or fresh label it must be.  R-ALT: derived forms (`a op= b` via "
+    "the binary instruction of the SAME operator with operands (a, b); `~x` as -1 - x; `-x` as -1 * x) and the operand "
+    "order of every emitted arithmetic instruction (out, left, right), including the recursive elaboration steps that "
+    "replace one side by a temporary.  Decides these necessary conditions; semantic equivalence of the "
     "emitted code over all register states is NOT decided.")
 RULE = "instance = one destination-reuse site / temporary definition / two-part jump"
 
@@ -141,7 +148,340 @@ def run(db, tier):
                         ok = first[:1] == ["cmp_opcode"] and second[:1] == ["jmp_opcode"]
     rep.check(ok, "R-CMP-JMP", "TwoPart|cmp-then-jmp", cj.loc, "the comparison instruction is emitted before the jump instruction",
               "the TwoPart arm does not emit cmp_opcode first and jmp_opcode second")
+    _cond_tables(db, rep)
     return rep
+
+
+COMPLEMENT = {"Eq": "Ne", "Ne": "Eq", "Lt": "Ge", "Ge": "Lt", "Le": "Gt", "Gt": "Le"}
+
+
+def _last(p):
+    return p.rsplit("::", 1)[-1]
+
+
+def _cond_tables(db, rep):
+    """R-NEGATE / R-DEMORGAN / R-COND-LOWER: the finite tables and call shapes that carry the meaning of
+    `if`/`unless`, `!`, `&&`, `||` and comparisons into conditional-jump instructions."""
+    from rules import hirq
+    rep.rule("R-NEGATE", "negate_comparison maps every comparison operator to its logical complement (== != , < >= , <= >) and "
+                         "nothing else to Some; CondKeyword::negate swaps if/unless")
+    rep.rule("R-DEMORGAN", "`if (a||b)` / `unless (a&&b)` are split into two jumps with the same keyword and target; the other two "
+                           "combinations jump over an unconditional jump with the NEGATED keyword on both operands (De Morgan)")
+    rep.rule("R-COND-LOWER", "the remaining lowering steps of a conditional jump keep its meaning: `!x` negates the keyword, a bare "
+                             "expression is compared with `!= 0`, `unless (a op b)` uses the complemented operator, `unless (--x)` "
+                             "jumps over an unconditional jump")
+    # ---- negate_comparison
+    f = db.fn("ast::BinOpKind::negate_comparison")
+    rep.fn(f)
+    m = arms.first_match(f, db)
+    seen = {}
+    wild_none = False
+    for arm in (m["arms"] if m else []):
+        res = arms.abstract(arm["b"])
+        for sg in arms.pat_sig(arm["p"]):
+            if sg is None:
+                wild_none = res == ("path", "core::option::Option::None") or res[:2] == ("ctor", "core::option::Option::None")
+            else:
+                seen[_last(sg)] = res
+    rep.floor("negate_comparison arms", len(seen), 6)
+    for op, res in sorted(seen.items()):
+        want = COMPLEMENT.get(op)
+        got = _last(res[2][1]) if res[0] == "ctor" and res[1].endswith("Option::Some") and len(res) > 2 and res[2][0] == "path" else None
+        if want is None:
+            ok = res[0] in ("path", "ctor") and res[1].endswith("Option::None")
+            rep.check(ok, "R-NEGATE", "negate_comparison|" + op, "%s:%d" % (f.file, f.line), "non-comparison -> None", "non-comparison operator %s is given a negation" % op)
+        else:
+            rep.check(got == want, "R-NEGATE", "negate_comparison|" + op, "%s:%d" % (f.file, f.line), "%s -> %s" % (op, got),
+                      "the negation of `%s` is `%s`, not its complement `%s`: `unless (a %s b)` and decompiled if/else chains change meaning" % (op, got, want, op))
+    for op in COMPLEMENT:
+        if op not in seen:
+            rep.bad("R-NEGATE", "negate_comparison|" + op, f.loc, "comparison operator %s has no negation arm" % op)
+    rep.check(wild_none, "R-NEGATE", "negate_comparison|others", f.loc, "every other operator -> None", "the catch-all arm does not return None")
+    g = db.fn("ast::CondKeyword::negate")
+    rep.fn(g)
+    m = arms.first_match(g, db)
+    tab = {}
+    for arm in (m["arms"] if m else []):
+        for sg in arms.pat_sig(arm["p"]):
+            r = arms.abstract(arm["b"])
+            tab[_last(sg) if sg else "_"] = _last(r[1]) if r[0] == "path" else str(r)
+    rep.check(tab == {"If": "Unless", "Unless": "If"}, "R-NEGATE", "CondKeyword::negate", g.loc, "if <-> unless", "CondKeyword::negate is not the swap if<->unless: %s" % tab)
+
+    # ---- && / ||
+    f = db.fn(S + "lower_cond_jump_logic_binop")
+    rep.fn(f)
+    L = hirq.lets(f)
+    table = {}
+    mm = None
+    for n in hir_walk(f.hir):
+        if n.get("k") == "Match" and n.get("src") == "Normal" and n["s"].get("k") == "Tup":
+            mm = n
+            break
+    if mm is None:
+        raise MissingAnchor(" (keyword, binop) table in lower_cond_jump_logic_binop")
+    # which tuple position is the keyword?
+    for arm in mm["arms"]:
+        tv = arms.tuple_variants(arm["p"])
+        if not tv or any(len(x) != 1 for x in tv):
+            continue
+        names = sorted(_last(x[0]) for x in tv)
+        r = arms.abstract(arm["b"])
+        if r[0] == "lit":
+            table[tuple(names)] = r[1]
+    want = {("If", "LogicOr"): "true", ("If", "LogicAnd"): "false", ("LogicAnd", "Unless"): "true", ("LogicOr", "Unless"): "false"}
+    bound = None
+    for n in hirq.let_stmts(f.hir):
+        if n.get("i") is mm:
+            bound = n["p"].get("n")
+    iff = hirq.find_if_on_local(f, bound) if bound else None
+    if iff is None:
+        raise MissingAnchor(" `if is_easy_case` in lower_cond_jump_logic_binop")
+    for kk, vv in sorted(want.items()):
+        rep.check(table.get(kk) == vv, "R-DEMORGAN", "easy-case|%s,%s" % kk, f.loc, "%s -> split=%s" % (kk, vv),
+                  "(%s, %s) is classified as %s: splitting into two jumps with the same keyword is only valid for if/|| and unless/&&" % (kk[0], kk[1], table.get(kk)))
+
+    def jumps(branch):
+        out = []
+        for c in hirq.call_seq(branch, ("::lower_cond_jump_non_count", "::lower_uncond_jump", "Vec::<T, A>::push")):
+            out.append((_last(c["f"]), [hirq.features(f, a, L) for a in hirq.args_of(c)]))
+        return out
+    easy = jumps(iff["t"])
+    hard = jumps(iff["el"])
+    pnames = [p.get("n") for p in f.d["hparams"]]
+
+    def operand(fe):
+        return [x for x in ("a", "b") if hirq.has_local(fe, x)]
+    ok = (len(easy) == 2 and all(n == "lower_cond_jump_non_count" for n, _ in easy)
+          and all(hirq.has_local(a[2], "keyword") and not hirq.has_call(a[2], "::negate") for _, a in easy)
+          and all(hirq.has_local(a[4], "goto") for _, a in easy)
+          and [operand(a[3]) for _, a in easy] == [["a"], ["b"]])
+    rep.check(ok, "R-DEMORGAN", "easy-case|two jumps, same keyword, same target", f.loc, "if(a) goto L; if(b) goto L",
+              "the split case does not emit exactly `kw (a) goto L; kw (b) goto L`: %s" % [(n, [sorted(x)[:4] for x in a[2:5]]) for n, a in easy])
+    ok = False
+    detail = "expected `!kw (a) goto skip; !kw (b) goto skip; goto L; skip:`"
+    if len(hard) == 4 and [n for n, _ in hard] == ["lower_cond_jump_non_count", "lower_cond_jump_non_count", "lower_uncond_jump", "push"]:
+        j1, j2, u, pl = [a for _, a in hard]
+        neg = all(hirq.has_call(j[2], "CondKeyword::negate") and hirq.has_local(j[2], "keyword") for j in (j1, j2))
+        ops = [operand(j1[3]), operand(j2[3])] == [["a"], ["b"]]
+        skip = all(hirq.has_call(j[4], "::gensym") and not hirq.has_local(j[4], "goto") for j in (j1, j2))
+        unc = hirq.has_local(u[2], "goto") and not hirq.has_call(u[2], "::gensym")
+        lab = hirq.has_ctor(pl[0], "LowerStmt::Label") and hirq.has_call(pl[0], "::gensym")
+        same = True
+        # both conditional jumps and the label use the same gensym'd local
+        g1 = set(x for x in j1[4] if x[0] == "local") & set(x for x in j2[4] if x[0] == "local") & set(x for x in pl[0] if x[0] == "local")
+        same = any(("call", c) in hirq.features(f, L[nm][0], L) for (_, nm) in g1 if nm in L for c in [v for t, v in hirq.features(f, L[nm][0], L) if t == "call" and v.endswith("::gensym")])
+        ok = neg and ops and skip and unc and lab and same
+        detail = "negated keyword on both: %s; operands a then b: %s; both jump to the fresh skip label: %s; then goto L: %s; then the skip label: %s/%s" % (neg, ops, skip, unc, lab, same)
+    rep.check(ok, "R-DEMORGAN", "hard-case|negated jumps over an unconditional jump", f.loc, detail, "the non-split case is not lowered as De Morgan requires: " + detail)
+
+    # ---- lower_cond_jump_non_count: `!x`, bare expression
+    f = db.fn(S + "lower_cond_jump_non_count")
+    rep.fn(f)
+    L = hirq.lets(f)
+    m = arms.first_match(f, db)
+    n_arm = 0
+    for arm in (m["arms"] if m else []):
+        sgs = arms.pat_sig(arm["p"])
+        body = arm["b"]
+        calls = hirq.call_seq(body, ("::lower_cond_jump_comparison", "::lower_cond_jump_non_count", "::lower_cond_jump_logic_binop"))
+        sg = sgs[0] if sgs else None
+        if sg and "Expr::UnOp" in sg and "UnOpKind::Not" in sg:
+            n_arm += 1
+            ok = len(calls) == 1 and calls[0]["f"].endswith("lower_cond_jump_non_count")
+            if ok:
+                a = [hirq.features(f, x, L) for x in hirq.args_of(calls[0])]
+                ok = hirq.has_call(a[2], "CondKeyword::negate") and hirq.has_local(a[4], "goto")
+            rep.check(ok, "R-COND-LOWER", "non_count|!x", "%s:%d" % (f.file, arm["ln"]), "`kw (!x)` -> `negate(kw) (x)` with the same target",
+                      "`!x` is not lowered by negating the keyword and keeping the target")
+        elif sg is None and "g" not in arm:
+            n_arm += 1
+            ok = len(calls) == 1 and calls[0]["f"].endswith("lower_cond_jump_comparison")
+            if ok:
+                a = [hirq.features(f, x, L) for x in hirq.args_of(calls[0])]
+                ok = (hirq.has_local(a[2], "keyword") and not hirq.has_call(a[2], "::negate") and hirq.has_ctor(a[4], "BinOpKind::Ne")
+                      and ("lit", "0") in a[5] and hirq.has_local(a[6], "goto") and hirq.has_local(a[3], "expr"))
+            rep.check(ok, "R-COND-LOWER", "non_count|bare expression", "%s:%d" % (f.file, arm["ln"]), "`kw (e)` -> `kw (e != 0)`",
+                      "a bare condition is not lowered as `e != 0` with the same keyword and target")
+        elif sg and "Expr::BinOp" in sg:
+            n_arm += 1
+            ok = len(calls) == 1
+            if ok:
+                a = [hirq.features(f, x, L) for x in hirq.args_of(calls[0])]
+                ok = hirq.has_local(a[2], "keyword") and not hirq.has_call(a[2], "::negate") and hirq.has_local(a[-1], "goto")
+            rep.check(ok, "R-COND-LOWER", "non_count|binop-%d" % n_arm, "%s:%d" % (f.file, arm["ln"]), "keyword and target passed through unchanged",
+                      "a comparison / logic condition is dispatched with a changed keyword or target")
+    rep.floor("lower_cond_jump_non_count arms", n_arm, 4)
+
+    # ---- unless (a op b)
+    f = db.fn(S + "lower_cond_jump_comparison")
+    rep.fn(f)
+    kwm = None
+    for n in hir_walk(f.hir):
+        if n.get("k") == "Match" and n.get("src") == "Normal" and db.types[n["st"]].endswith("ast::CondKeyword"):
+            kwm = n
+    if kwm is None:
+        raise MissingAnchor(" match on keyword in lower_cond_jump_comparison")
+    tab = {}
+    for arm in kwm["arms"]:
+        for sg in arms.pat_sig(arm["p"]):
+            fe = hirq.features(f, arm["b"], {})
+            tab[_last(sg) if sg else "_"] = "negated" if hirq.has_call(fe, "negate_comparison") else "same"
+    rep.check(tab == {"If": "same", "Unless": "negated"}, "R-COND-LOWER", "comparison|unless uses the complemented operator", f.loc, str(tab),
+              "`if` must keep the operator and `unless` must complement it; found %s" % tab)
+
+    # ---- unless (--x)
+    f = db.fn(S + "lower_count_jump_intrinsic")
+    rep.fn(f)
+    L = hirq.lets(f)
+    m = arms.first_match(f, db)
+    okc = False
+    for arm in (m["arms"] if m else []):
+        sg = arms.pat_sig(arm["p"])[0]
+        if sg and sg.endswith("CondKeyword::Unless"):
+            seq = hirq.call_seq(arm["b"], ("::lower_count_jump_intrinsic", "::lower_uncond_jump", "Vec::<T, A>::push"))
+            if [_last(c["f"]) for c in seq] == ["lower_count_jump_intrinsic", "lower_uncond_jump", "push"]:
+                a0 = [hirq.features(f, x, L) for x in hirq.args_of(seq[0])]
+                a1 = [hirq.features(f, x, L) for x in hirq.args_of(seq[1])]
+                a2 = [hirq.features(f, x, L) for x in hirq.args_of(seq[2])]
+                okc = (hirq.has_ctor(a0[2], "CondKeyword::If") and hirq.has_call(a0[5], "::gensym") and not hirq.has_local(a0[5], "goto")
+                       and hirq.has_local(a1[2], "goto") and hirq.has_ctor(a2[0], "LowerStmt::Label") and hirq.has_call(a2[0], "::gensym"))
+    rep.check(okc, "R-COND-LOWER", "count-jump|unless (--x)", f.loc, "if (--x) goto skip; goto L; skip:",
+              "`unless (--x) goto L` is not lowered as `if (--x) goto skip; goto L; skip:`")
+
+    _alternatives(db, rep)
+
+
+def _alternatives(db, rep):
+    """R-ALT: operations that a language lacks are emitted through an equivalent instruction"""
+    from rules import hirq
+    rep.rule("R-ALT", "`a op= b` is emitted as `a = a op b` with the SAME operator and operand order (a first); `~x` as `-1 - x`; "
+                      "`-x` as `-1 * x`; direct intrinsics take (out, operand) in that order")
+    # corresponding_binop: variant names agree
+    f = db.fn("ast::AssignOpKind::corresponding_binop")
+    rep.fn(f)
+    m = arms.first_match(f, db)
+    n = 0
+    for arm in (m["arms"] if m else []):
+        r = arms.abstract(arm["b"])
+        for sg in arms.pat_sig(arm["p"]):
+            if sg is None:
+                continue
+            op = _last(sg)
+            n += 1
+            if op == "Assign":
+                rep.check(r[0] in ("path", "ctor") and r[1].endswith("Option::None"), "R-ALT", "corresponding_binop|Assign", f.loc, "= has no operator", "`=` is given a binary operator")
+            else:
+                got = None
+                bb = arms.unwrap_block(arm["b"])
+                if r[0] == "ctor" and r[1].endswith("Option::Some") and bb.get("a"):
+                    got = arms.resolve_token(db, bb["a"][0])
+                    got = _last(got) if got else None
+                rep.check(got == op, "R-ALT", "corresponding_binop|" + op, "%s:%d" % (f.file, arm["ln"]), "%s= -> %s" % (op, got),
+                          "compound assignment `%s=` is computed with the operator `%s`" % (op, got))
+    rep.floor("corresponding_binop arms", n, 12)
+
+    # discover_alternatives: constants and operators of the derived forms
+    f = db.fn("llir::intrinsic::alternatives::discover_alternatives")
+    rep.fn(f)
+    L = hirq.lets(f)
+    want = {"BitNot": ("-1", "BinOpKind::Sub"), "Neg": ("-1", "BinOpKind::Mul")}
+    found = {}
+    for c in hirq.call_seq(f.hir, ("HashMap::<K, V, S, A>::insert",)):
+        a = hirq.args_of(c)
+        if len(a) != 2:
+            continue
+        kf = hirq.features(f, a[0], L)
+        vf = hirq.features(f, a[1], L)
+        if hirq.has_ctor(vf, "UnOp::ViaConstBinOp"):
+            for op in want:
+                if hirq.has_ctor(kf, "UnOpKind::" + op):
+                    found[op] = (c, vf)
+        if hirq.has_ctor(vf, "AssignOp::ViaBinOp"):
+            ok = hirq.has_call(vf, "corresponding_binop")
+            rep.check(ok, "R-ALT", "discover|assign-via-binop", "%s:%d" % (f.file, c["ln"]), "opcode looked up for corresponding_binop(assign_op)",
+                      "the opcode of `a op= b` is not the one registered for the corresponding binary operator")
+    for op, (lit, bop) in sorted(want.items()):
+        if op not in found:
+            rep.bad("R-ALT", "discover|" + op, f.loc, "no derived form registered for %s (anchor)" % op)
+            continue
+        c, vf = found[op]
+        lits = sorted(v for t, v in vf if t == "lit")
+        bops = sorted(_last(v) for t, v in vf if t == "ctor" and "BinOpKind::" in v)
+        ok = lits == [lit] and bops == [_last(bop)]
+        rep.check(ok, "R-ALT", "discover|" + op, "%s:%d" % (f.file, c["ln"]), "%s x == %s %s x" % (op, lit, _last(bop)),
+                  "%s x is derived as constant %s with operator %s (expected %s with %s)" % (op, lits, bops, lit, _last(bop)))
+
+    # emission order
+    def arm_pushes(fid, variant):
+        g = db.fn(S + fid)
+        rep.fn(g)
+        Lg = hirq.lets(g)
+        for m in hir_walk(g.hir):
+            if m.get("k") != "Match" or m.get("src") != "Normal":
+                continue
+            for arm in m["arms"]:
+                if any(sg and variant in sg for sg in arms.pat_sig(arm["p"])):
+                    return g, arm, hirq.pushes(g, arm["b"], Lg)
+        raise MissingAnchor("%s arm in %s" % (variant, fid))
+
+    def shape(pushes, names):
+        out = []
+        for fld, fe in pushes:
+            who = [nm for nm in names if hirq.has_local(fe, nm)]
+            out.append((fld, who[0] if len(who) == 1 else tuple(who)))
+        return out
+    g, arm, pu = arm_pushes("lower_assign_op_intrinsic", "AssignOp::ViaBinOp")
+    sh = shape(pu, ("lowered_var", "lowered_rhs"))
+    rep.check(sh == [("outputs", "lowered_var"), ("plain_args", "lowered_var"), ("plain_args", "lowered_rhs")], "R-ALT", "emit|a op= b via binop",
+              "%s:%d" % (g.file, arm["ln"]), "out=a, args=(a, b)", "`a op= b` via the binary instruction must emit out=a, args=(a, b) in that order; found %s" % sh)
+    g, arm, pu = arm_pushes("lower_assign_op_intrinsic", "AssignOp::Intrinsic")
+    sh = shape(pu, ("lowered_var", "lowered_rhs"))
+    rep.check(sh == [("outputs", "lowered_var"), ("plain_args", "lowered_rhs")], "R-ALT", "emit|a op= b intrinsic",
+              "%s:%d" % (g.file, arm["ln"]), "out=a, args=(b)", "found %s" % sh)
+    g, arm, pu = arm_pushes("lower_assign_direct_unop_intrinsic", "UnOp::ViaConstBinOp")
+    sh = shape(pu, ("lowered_var", "a", "b"))
+    rep.check(sh == [("outputs", "lowered_var"), ("plain_args", "a"), ("plain_args", "b")], "R-ALT", "emit|unop via const binop",
+              "%s:%d" % (g.file, arm["ln"]), "out=v, args=(const, x)", "`-1 - x` / `-1 * x` must emit the constant first and the operand second; found %s" % sh)
+    g, arm, pu = arm_pushes("lower_assign_direct_unop_intrinsic", "UnOp::Intrinsic")
+    sh = shape(pu, ("lowered_var", "b"))
+    rep.check(sh == [("outputs", "lowered_var"), ("plain_args", "b")], "R-ALT", "emit|unop intrinsic", "%s:%d" % (g.file, arm["ln"]), "out=v, args=(x)", "found %s" % sh)
+    # binop: out, a, b and operand positions preserved through the elaboration steps
+    g = db.fn(S + "lower_assign_direct_binop")
+    Lg = hirq.lets(g)
+    prim = [c for c in hirq.call_seq(g.hir, ("::lower_intrinsic",))]
+    sh = []
+    if prim:
+        for fld, fe in hirq.pushes(g, prim[-1], {}):
+            who = [nm for t, nm in fe if t == "local"]
+            sh.append((fld, who[0] if len(who) == 1 else tuple(sorted(who))))
+    ok = len(sh) == 3 and sh[0][0] == "outputs" and sh[1][0] == "plain_args" and sh[2][0] == "plain_args"
+    src = []
+    if ok:
+        for _, nm in sh[1:]:
+            init = (Lg.get(nm) or [None])[0]
+            scr = hirq.features(g, init["s"], {}) if isinstance(init, dict) and init.get("k") == "Match" else set()
+            src.append([x for x in ("a", "b") if hirq.has_local(scr, x)])
+        ok = src == [["a"], ["b"]] and hirq.has_local(hirq.features(g, Lg[sh[0][1]][0], {}), "var") if sh[0][1] in Lg else False
+    rep.check(ok, "R-ALT", "emit|binop intrinsic", g.loc, "out=v, args=(value of a, value of b)",
+              "a binary instruction must receive out=v and its operands in source order; found %s from %s" % (sh, src))
+    rec = [c for c in hirq.call_seq(g.hir, ("::lower_assign_direct_binop",))]
+    rep.floor("recursive elaboration calls in lower_assign_direct_binop", len(rec), 4)
+    for i, c in enumerate(rec):
+        a = hirq.args_of(c)
+        fa = hirq.features(g, a[5], {})
+        fb = hirq.features(g, a[7], {})
+        la = sorted(nm for t, nm in fa if t == "local")
+        lb = sorted(nm for t, nm in fb if t == "local")
+        # exactly one side is replaced by a freshly computed value; the other side stays the same parameter on the same side
+        ok = (la == ["a"] and lb and lb != ["b"] and "a" not in lb) or (lb == ["b"] and la and la != ["a"] and "b" not in la)
+        if ok:
+            new_side = lb if la == ["a"] else la
+            init = hirq.let_before(Lg, new_side[0], c["ln"])
+            fi = hirq.features(g, init, {}) if init is not None else set()
+            want_data = "data_b" if la == ["a"] else "data_a"
+            ok = hirq.has_local(fi, want_data) and (hirq.has_call(fi, "compute_temporary_expr") or hirq.has_call(fi, "define_temporary"))
+        rep.check(ok, "R-ALT", "elaborate|recursive-%d" % (i + 1), "%s:%d" % (g.file, c["ln"]), "left stays left, right stays right; the replaced side holds that side's value",
+                  "an elaboration step swaps or mixes the operands: left=%s right=%s" % (la, lb))
 
 
 def _release_loop_dominates_returns(g, undefs, errs):
